@@ -69,6 +69,14 @@ RECURSIVE Pull(_, _)
 Pull(D, L) == LET add == {d \in DebugNodes(D) \ L : D.deps[d] # {} /\ D.deps[d] \cap L # {} /\ D.deps[d] \subseteq L}
               IN IF add = {} THEN L ELSE Pull(D, L \cup add)
 Leaves(D, S) == {n \in S : Succs(D, {n}) \cap S = {}}
+\* C03 / C13, flag on: the debug nodes a sub-graph run MUST take along - the documented fixed point "a debug node all of
+\* whose inputs are leaves of the selection (or debug nodes taken along already) can run, hence runs".  A lower bound:
+\* an implementation may take more (PulledOK is the upper bound), never fewer.  Debug nodes with a constant argument are
+\* left out of the bound (their argument holder is a predecessor that is never a leaf).
+RECURSIVE PullLow(_, _)
+PullLow(D, L) == LET add == {d \in DebugNodes(D) \ L : ~D.const[d] /\ D.deps[d] # {} /\ D.deps[d] \subseteq L}
+                 IN IF add = {} THEN L ELSE PullLow(D, L \cup add)
+MustPull(D, S) == PullLow(D, Leaves(D, S)) \ S
 
 (***************************************************************************)
 (* What executes: the selected nodes that are not precomputed.             *)
